@@ -470,6 +470,26 @@ func c10r3(c *core.Ctx) {
 	}
 }
 
+// subscribeCallers: subscriptions are changed only by the /characteristics handler (which sits behind the authenticating
+// wrapper, C01-R1) and only on the session of the request's own connection.
+func subscribeCallers(c *core.Ctx) {
+	p := c.P
+	n := 0
+	for _, f := range libFuncs(p) {
+		for _, s := range core.FindCalls(f, func(i ssa.Instruction) bool {
+			return core.IsInvoke(i, qSession, "Subscribe") || core.IsInvoke(i, qSession, "Unsubscribe")
+		}) {
+			n++
+			req := paramOfType(f, "net/http.Request")
+			ok := req != nil && sessionOfRequest(core.Receiver(s), req) && cn(f) == "Characteristics"
+			c.Check(ok, "subscribe-caller@"+fname(f)+"/"+core.CallOf(s).Method.Name(), posOf(s), "called by the /characteristics handler on the requesting session", "subscriptions are changed outside the /characteristics handler or on another session than the requesting one")
+		}
+	}
+	if n == 0 {
+		c.Undecided("subscribe-callers", token.NoPos, "no Subscribe/Unsubscribe call site")
+	}
+}
+
 func c10r4(c *core.Ctx) {
 	p := c.P
 	sessionAccessors(c, "subscribed")
@@ -530,21 +550,7 @@ func c10r4(c *core.Ctx) {
 		})
 		c.Check(inSec, key+"/locked", op.Pos(), "under the session mutex", "the subscription map is accessed outside the session mutex ("+why+")")
 	}
-	// who subscribes
-	n := 0
-	for _, f := range libFuncs(p) {
-		for _, s := range core.FindCalls(f, func(i ssa.Instruction) bool {
-			return core.IsInvoke(i, qSession, "Subscribe") || core.IsInvoke(i, qSession, "Unsubscribe")
-		}) {
-			n++
-			req := paramOfType(f, "net/http.Request")
-			ok := req != nil && sessionOfRequest(core.Receiver(s), req) && cn(f) == "Characteristics"
-			c.Check(ok, "subscribe-caller@"+fname(f)+"/"+core.CallOf(s).Method.Name(), posOf(s), "called by the /characteristics handler on the requesting session", "subscriptions are changed outside the /characteristics handler or on another session than the requesting one")
-		}
-	}
-	if n == 0 {
-		c.Undecided("subscribe-callers", token.NoPos, "no Subscribe/Unsubscribe call site")
-	}
+	subscribeCallers(c)
 	// the map is created per session
 	if f := p.Func("hap", "NewSession"); f != nil {
 		fresh := false
